@@ -21,7 +21,7 @@ ASSUMPTIONS = ["completeness is demanded only for transversal crossings interior
 
 
 def bounds(tier, seed):
-    return {"grid": 3 if tier == "quick" else 4, "polylines": 40 if tier == "quick" else 400}
+    return {"grid": 3 if tier == "quick" else 5, "polylines": 40 if tier == "quick" else 400}
 
 
 def segments(g):
